@@ -12,4 +12,5 @@ cp -n /repo/Cargo.lock harness/Cargo.lock 2>/dev/null || true
 (cd harness && cargo build --release --offline)
 # the real binary (C12: plain; C17: with the headless hook), built from /repo's working tree
 (cd /repo && cargo build --release --offline -p emulator-2a --target-dir /verif/harness/target-bin)
+(cd /repo && cargo build --release --offline -p emulator-2a --features verif-hooks --target-dir /verif/harness/target-bin-hooks)
 echo "setup ok"
